@@ -174,6 +174,21 @@ class RunResult:
             return "timeout"
         return "exit code %s without completion" % self.rc
 
+    def fault_stack(self):
+        """function names on the stack of the stdio call that was made to fail (needs fault_stack=True)"""
+        out, on = [], False
+        for l in self.stderr.splitlines():
+            l = l.strip()
+            if l == "H4X-FAULT-STACK":
+                on = True
+            elif l == "H4X-FAULT-STACK-END":
+                break
+            elif on and l.startswith("#"):
+                parts = l.split()
+                if len(parts) >= 4 and parts[2] == "in":
+                    out.append(parts[3])
+        return out
+
     def crash_frames(self, n=6):
         out = []
         for l in self.stderr.splitlines():
@@ -247,8 +262,10 @@ def base_env():
     return dict(_ENV_BASE)
 
 
-def run_text(text, cwd=None, fault=None, wlog=None, track=None, timeout=90, exe=None, trace=None):
+def run_text(text, cwd=None, fault=None, wlog=None, track=None, timeout=90, exe=None, trace=None, fault_stack=False):
     env = base_env()
+    if fault_stack:
+        env["H4X_FAULT_STACK"] = "1"
     if fault is not None:
         env["H4X_FAULT"] = fault
     if wlog:
